@@ -117,15 +117,359 @@ theorem C19_disconnected (t : Tbl) (s : State) (h : Nat) :
   simp only [State.rollBackTo]
   exact rollBack_replay t h s.log.length s.log s.fst s.ftip (by omega)
 
-/-- Full statement not yet proved in Lean; evaluated on every run on the real system by the
-subscriber replay in the driver (and `c19Backlog`). -/
+/-- the chain a subscriber must end up with: the blocks whose filter headers are committed -/
+def committedOf (log : List Nat) (fst : Nat) : List Nat := log.take (fst + 1)
+
+theorem replay_append (v : List Nat) (a b : List Ntfn) : replay v (a ++ b) = replay (replay v a) b := by
+  simp [replay, List.foldl_append]
+
+theorem rollBack_acc (h fuel : Nat) (log : List Nat) (fst : Nat) (ft : Node) (out : List Ntfn) :
+    rollBack h fuel log fst ft out =
+      ((rollBack h fuel log fst ft []).1, (rollBack h fuel log fst ft []).2.1, (rollBack h fuel log fst ft []).2.2.1,
+        out ++ (rollBack h fuel log fst ft []).2.2.2) := by
+  induction fuel generalizing log fst ft out with
+  | zero => simp [rollBack]
+  | succ n ih =>
+    by_cases hgt : tipHeight log > h
+    · rw [C19_disconnected_step h n log fst ft out hgt, C19_disconnected_step h n log fst ft [] hgt]
+      rw [ih, ih _ _ _ ([] ++ _)]
+      simp
+    · simp [rollBack, hgt]
+
+/-- the rollback loop, seen by a subscriber holding the committed chain: the disconnected events
+above the filter tip are ignored, the others pop one block each; the filter store tip and the
+in-memory filter tip go down together and stay inside the chain. -/
+theorem rollBack_trace (k fuel : Nat) (log : List Nat) (fst : Nat) (ft : Node) (hF : fst < log.length)
+    (hG : ft.height = fst) :
+    replay (committedOf log fst) (rollBack k fuel log fst ft []).2.2.2
+      = committedOf (rollBack k fuel log fst ft []).1 (rollBack k fuel log fst ft []).2.1 ∧
+    (rollBack k fuel log fst ft []).2.1 < (rollBack k fuel log fst ft []).1.length ∧
+    (rollBack k fuel log fst ft []).2.2.1.height = (rollBack k fuel log fst ft []).2.1 ∧
+    (∃ j, (rollBack k fuel log fst ft []).1 = log.take j) := by
+  induction fuel generalizing log fst ft with
+  | zero => simp only [rollBack, replay, List.foldl_nil]; exact ⟨trivial, hF, hG, log.length, by simp⟩
+  | succ n ih =>
+    by_cases hgt : tipHeight log > k
+    · rw [C19_disconnected_step k n log fst ft [] hgt, rollBack_acc]
+      simp only [List.nil_append]
+      have hth : tipHeight log = log.length - 1 := rfl
+      have hlen2 : 2 ≤ log.length := by omega
+      have hdl : log.dropLast.length = log.length - 1 := by simp
+      by_cases hle : tipHeight log ≤ fst
+      · -- the removed block was committed: fst = tip height, the view is the whole chain
+        have hfe : fst = log.length - 1 := by omega
+        simp only [hle, ↓reduceIte]
+        have hv : committedOf log fst = log := by simp only [committedOf]; exact List.take_of_length_le (by omega)
+        have hne : log ≠ [] := by intro e; simp [e] at hlen2
+        have hlast : log.getLast? = some (tipId log) := by
+          simp only [tipId]; rw [List.getLast?_eq_some_getLast hne]; rfl
+        have h1 : replay1 log (.disc (tipId log) (tipHeight log) (tipId log.dropLast)) = log.dropLast := by
+          simp only [replay1, hlast, hth]
+          have : log.length = log.length - 1 + 1 := by omega
+          simp [← this]
+        obtain ⟨i1, i2, i3, j, i4⟩ := ih log.dropLast (tipHeight log - 1) ⟨tipId log.dropLast, tipHeight log - 1⟩
+          (by omega) rfl
+        refine ⟨?_, i2, i3, ?_⟩
+        · rw [replay_append, hv]
+          have : replay log [.disc (tipId log) (tipHeight log) (tipId log.dropLast)] = log.dropLast := by
+            simp only [replay, List.foldl_cons, List.foldl_nil]; exact h1
+          rw [this]
+          have hc : committedOf log.dropLast (tipHeight log - 1) = log.dropLast := by
+            simp only [committedOf]; exact List.take_of_length_le (by omega)
+          rw [hc] at i1; exact i1
+        · exact ⟨min j (log.length - 1), by rw [i4, List.dropLast_eq_take, List.take_take]⟩
+      · simp only [hle, ↓reduceIte]
+        have hlt : fst + 1 < log.length := by omega
+        have h1 : replay1 (committedOf log fst) (.disc (tipId log) (tipHeight log) (tipId log.dropLast)) = committedOf log fst := by
+          have hvl : (committedOf log fst).length = fst + 1 := by simp only [committedOf, List.length_take]; omega
+          generalize committedOf log fst = v at hvl
+          simp only [replay1]
+          have : ¬ (v.length = tipHeight log + 1) := by omega
+          simp [this]
+        have hc : committedOf log.dropLast fst = committedOf log fst := by
+          simp only [committedOf, List.dropLast_eq_take, List.take_take]; congr 1; omega
+        obtain ⟨i1, i2, i3, j, i4⟩ := ih log.dropLast fst ft (by omega) hG
+        refine ⟨?_, i2, i3, ?_⟩
+        · rw [replay_append]
+          have : replay (committedOf log fst) [.disc (tipId log) (tipHeight log) (tipId log.dropLast)] = committedOf log fst := by
+            simp only [replay, List.foldl_cons, List.foldl_nil]; exact h1
+          rw [this, ← hc]; exact i1
+        · exact ⟨min j (log.length - 1), by rw [i4, List.dropLast_eq_take, List.take_take]⟩
+    · simp only [rollBack, hgt, ↓reduceIte, replay, List.foldl_nil]
+      exact ⟨trivial, hF, hG, log.length, by simp⟩
+
+
+/-- the filter-tip part of the shared invariant (`FilterTipConsistent`): the filter store's tip is
+inside the block chain and the in-memory filter tip is the store's (F10 repaired) -/
+structure FInv (s : State) : Prop where
+  F : s.fst < s.log.length
+  G : s.ftip.height = s.fst
+
+def committedS (s : State) : List Nat := committedOf s.log s.fst
+
+theorem committedOf_append (log ext : List Nat) (fst : Nat) (h : fst < log.length) :
+    committedOf (log ++ ext) fst = committedOf log fst := by
+  simp only [committedOf]; exact List.take_append_of_le_length (by omega)
+
+theorem rollBackTo_trace (s : State) (k : Nat) (h : FInv s) :
+    replay (committedS s) (s.rollBackTo k).2 = committedS (s.rollBackTo k).1 ∧ FInv (s.rollBackTo k).1 := by
+  obtain ⟨a, b, d, _⟩ := rollBack_trace k s.log.length s.log s.fst s.ftip h.F h.G
+  simp only [State.rollBackTo, committedS]
+  generalize rollBack k s.log.length s.log s.fst s.ftip [] = r at a b d
+  obtain ⟨r1, r2, r3, r4⟩ := r
+  exact ⟨a, ⟨b, d⟩⟩
+
+theorem finish_trace (c : Cfg) (s : State) (l : Loc) (ntf : List Ntfn) (h : FInv s) :
+    (finish c s l ntf).2 = ntf ∧ committedS (finish c s l ntf).1 = committedS s ∧ FInv (finish c s l ntf).1 := by
+  have hw : (s.write l.batchFirst l.batch).log = s.log ++ l.batch ∧ (s.write l.batchFirst l.batch).fst = s.fst ∧
+      (s.write l.batchFirst l.batch).ftip = s.ftip := by
+    simp only [State.write]
+    by_cases hb : l.batch = [] <;> simp [hb]
+  obtain ⟨w1, w2, w3⟩ := hw
+  have hF := h.F
+  cases hr : l.recvCp with
+  | true =>
+    simp only [finish, hr, ↓reduceIte]
+    refine ⟨trivial, ?_, ⟨?_, ?_⟩⟩
+    · show committedOf (s.write l.batchFirst l.batch).log (s.write l.batchFirst l.batch).fst = committedOf s.log s.fst
+      rw [w1, w2]; exact committedOf_append _ _ _ hF
+    · show (s.write l.batchFirst l.batch).fst < (s.write l.batchFirst l.batch).log.length
+      rw [w1, w2]; simp; omega
+    · show (s.write l.batchFirst l.batch).ftip.height = (s.write l.batchFirst l.batch).fst
+      rw [w2, w3]; exact h.G
+  | false =>
+    simp only [finish, hr, Bool.false_eq_true, ↓reduceIte]
+    refine ⟨trivial, ?_, ⟨?_, ?_⟩⟩
+    · show committedOf (s.write l.batchFirst l.batch).log (s.write l.batchFirst l.batch).fst = committedOf s.log s.fst
+      rw [w1, w2]; exact committedOf_append _ _ _ hF
+    · show (s.write l.batchFirst l.batch).fst < (s.write l.batchFirst l.batch).log.length
+      rw [w1, w2]; simp; omega
+    · show (s.write l.batchFirst l.batch).ftip.height = (s.write l.batchFirst l.batch).fst
+      rw [w2, w3]; exact h.G
+
+theorem cpTest_trace (c : Cfg) (p h : Nat) (s : State) (l : Loc) (ntf : List Ntfn) (nh : Nat) (r : State × List Ntfn)
+    (hr : cpTest c p h s l ntf nh = some r) (hf : FInv s) :
+    ∃ new, r.2 = ntf ++ new ∧ replay (committedS s) new = committedS r.1 ∧ FInv r.1 := by
+  simp only [cpTest] at hr
+  split at hr
+  · rename_i cp hcp
+    by_cases h1 : nh = cp.height
+    · rw [if_pos h1] at hr
+      by_cases h2 : h = cp.id
+      · rw [if_pos h2, Option.some.injEq] at hr
+        subst hr
+        obtain ⟨a, b, d⟩ := finish_trace c s { l with recvCp := true } ntf hf
+        exact ⟨[], by simp [a], by rw [b]; rfl, d⟩
+      · rw [if_neg h2, Option.some.injEq] at hr
+        subst hr
+        obtain ⟨a, b⟩ := rollBackTo_trace s (findPrevCp c.cps nh).height hf
+        exact ⟨_, rfl, a, ⟨b.F, b.G⟩⟩
+    · rw [if_neg h1] at hr; cases hr
+  · cases hr
+
+theorem doReorg_trace (c : Cfg) (s : State) (p h bh : Nat) (hf : FInv s) :
+    replay (committedS s) (doReorg c s p h bh).2 = committedS (doReorg c s p h bh).1 ∧ FInv (doReorg c s p h bh).1 := by
+  obtain ⟨a, b⟩ := rollBackTo_trace { s with sync := some p } bh ⟨hf.F, hf.G⟩
+  simp only [doReorg, State.write, List.cons_ne_nil, ↓reduceIte]
+  refine ⟨?_, ⟨by simp; have := b.F; omega, b.G⟩⟩
+  have : committedS s = committedS { s with sync := some p } := rfl
+  rw [this, a]
+  simp only [committedS]
+  exact (committedOf_append _ _ _ b.F).symm
+
+/-- **What a subscriber sees of one `headers` message**: the notifications the loop emits, replayed
+on the committedS chain, give the committedS chain afterwards - on every path through the loop. -/
+theorem loop_trace (c : Cfg) (p : Nat) (rest : List Nat) :
+    ∀ (s : State) (l : Loc) (ntf : List Ntfn), FInv s →
+      ∃ new, (loop c p rest s l ntf).2 = ntf ++ new ∧
+        replay (committedS s) new = committedS (loop c p rest s l ntf).1 ∧ FInv (loop c p rest s l ntf).1 := by
+  induction rest with
+  | nil =>
+    intro s l ntf hf
+    obtain ⟨a, b, d⟩ := finish_trace c s l ntf hf
+    exact ⟨[], by simp [loop, a], by simp only [loop]; rw [b]; rfl, by simp only [loop]; exact d⟩
+  | cons h rest ih =>
+    intro s l ntf hf
+    simp only [loop]
+    cases hhd : s.hl.head? with
+    | none => exact ⟨[], by simp, rfl, ⟨hf.F, hf.G⟩⟩
+    | some prev =>
+      simp only []
+      by_cases hpar : c.tbl.parent h = some prev.id
+      · simp only [hpar, ↓reduceIte]
+        by_cases hv : c.tbl.valid h = true
+        · simp only [hv, Bool.not_true, Bool.false_eq_true, ↓reduceIte]
+          have hf' : FInv { s with peers := updLast s.peers p (prev.height + 1), hl := hlPush c.win s.hl ⟨h, prev.height + 1⟩ } :=
+            ⟨hf.F, hf.G⟩
+          cases hcp : cpTest c p h _ (pushBatch { l with finalId := h } h (prev.height + 1)) ntf (prev.height + 1) with
+          | some r =>
+            obtain ⟨new, e1, e2, e3⟩ := cpTest_trace c p h
+              { s with peers := updLast s.peers p (prev.height + 1), hl := hlPush c.win s.hl ⟨h, prev.height + 1⟩ }
+              _ ntf _ r hcp hf'
+            exact ⟨new, e1, e2, e3⟩
+          | none =>
+            obtain ⟨new, e1, e2, e3⟩ := ih
+              { s with peers := updLast s.peers p (prev.height + 1), hl := hlPush c.win s.hl ⟨h, prev.height + 1⟩ }
+              (pushBatch { l with finalId := h } h (prev.height + 1)) ntf hf'
+            exact ⟨new, e1, e2, e3⟩
+        · simp only [hv, Bool.not_false, ↓reduceIte]
+          exact ⟨[], by simp, rfl, ⟨hf.F, hf.G⟩⟩
+      · simp only [hpar, ↓reduceIte]
+        cases hd : reorgDecision c s p prev h rest with
+        | ignore => exact ⟨[], by simp, rfl, hf⟩
+        | skip => exact ih s _ ntf hf
+        | disconnect => exact ⟨[], by simp, rfl, ⟨hf.F, hf.G⟩⟩
+        | adopt bh =>
+          simp only []
+          obtain ⟨a, b⟩ := doReorg_trace c s p h bh hf
+          cases hcp : cpTest c p h (doReorg c s p h bh).1 { l with finalId := h } (ntf ++ (doReorg c s p h bh).2) 0 with
+          | some r =>
+            obtain ⟨new, e1, e2, e3⟩ := cpTest_trace _ _ _ _ _ _ _ r hcp b
+            exact ⟨(doReorg c s p h bh).2 ++ new, by rw [e1, List.append_assoc], by rw [replay_append, a, e2], e3⟩
+          | none =>
+            obtain ⟨new, e1, e2, e3⟩ := ih (doReorg c s p h bh).1 { l with finalId := h } (ntf ++ (doReorg c s p h bh).2) b
+            exact ⟨(doReorg c s p h bh).2 ++ new, by rw [e1, List.append_assoc], by rw [replay_append, a, e2], e3⟩
+
+
+theorem conn_replay (log : List Nat) (f : Nat) : ∀ (n start : Nat), start + n ≤ log.length →
+    replay (log.take start) (connRange log f start n) = log.take (start + n) := by
+  intro n
+  induction n with
+  | zero => intro start _; simp [connRange, replay]
+  | succ k ih =>
+    intro start hle
+    have hlt : start < log.length := by omega
+    simp only [connRange, replay, List.foldl_cons]
+    have h1 : replay1 (log.take start) (.conn (log.getD start 0) start f) = log.take (start + 1) := by
+      simp only [replay1, List.length_take]
+      have : ¬ (start < min start log.length) := by omega
+      simp only [this, ↓reduceIte]
+      rw [List.take_succ, List.getD_eq_getElem?_getD, List.getElem?_eq_getElem hlt]; simp
+    rw [h1]
+    have := ih (start + 1) (by omega)
+    simp only [replay] at this
+    rw [this]; congr 1; omega
+
+/-- **One `headers` message, every path**: the notifications emitted while it is handled,
+replayed on the committed chain, reproduce the committed chain afterwards. -/
+theorem C19_replay_headers (c : Cfg) (s : State) (p : Nat) (hs : List Nat) (hf : FInv s) :
+    replay (committedS s) (handleHeaders c s p hs).2 = committedS (handleHeaders c s p hs).1 ∧
+    FInv (handleHeaders c s p hs).1 := by
+  simp only [handleHeaders]
+  by_cases h1 : hs = []
+  · simp only [h1, ↓reduceIte]; exact ⟨rfl, hf⟩
+  · simp only [h1, ↓reduceIte]
+    by_cases h2 : linked c.tbl hs = true
+    · simp only [h2, Bool.not_true, Bool.false_eq_true, ↓reduceIte]
+      obtain ⟨new, e1, e2, e3⟩ := loop_trace c p hs s {} [] hf
+      rw [e1]; simpa using ⟨e2, e3⟩
+    · simp only [h2, Bool.not_false, ↓reduceIte]; exact ⟨rfl, ⟨hf.F, hf.G⟩⟩
+
+/-- **One aligned filter-header write**: the connected events extend the committed chain to the
+new filter tip (the writer asks for the headers from `filter tip + 1`, i.e. `endH = fst + n`). -/
+theorem C19_replay_cfwrite (s : State) (stop n endH : Nat) (hf : FInv s) (hi : idxOf s.log stop = some endH)
+    (hn : n ≠ 0) (hal : endH = s.fst + n) :
+    replay (committedS s) (cfWrite s stop n true).2.ntf = committedS (cfWrite s stop n true).1 ∧
+    FInv (cfWrite s stop n true).1 := by
+  obtain ⟨a, b, d, e⟩ := C19_connected s stop n endH hi hn (by omega)
+  obtain ⟨hlt, _⟩ := idxOf_some hi
+  have hstart : endH - (n - 1) = s.fst + 1 := by omega
+  rw [e, hstart]
+  simp only [committedS, committedOf, a, d]
+  refine ⟨?_, ⟨by rw [a, d]; exact hlt, by rw [b, a]⟩⟩
+  have := conn_replay s.log endH n (s.fst + 1) (by omega)
+  rw [this]; congr 1; omega
+
+/-- the notifications of a run, in emission order -/
+def ntfsOf (c : Cfg) (s : State) : List Ev → List Ntfn
+  | [] => []
+  | e :: es => (step c s e).2.ntf ++ ntfsOf c (step c s e).1 es
+
+/-- the filter-header writer's contract: a write that succeeds starts right above the filter tip -/
+def alignedEv (s : State) : Ev → Prop
+  | .cfWrite stop n true => ∀ endH, idxOf s.log stop = some endH → n ≠ 0 → n - 1 ≤ endH → endH = s.fst + n
+  | _ => True
+
+def alignedRun (c : Cfg) (s : State) : List Ev → Prop
+  | [] => True
+  | e :: es => alignedEv s e ∧ alignedRun c (step c s e).1 es
+
+theorem step_trace (c : Cfg) (s : State) (e : Ev) (hf : FInv s) (ha : alignedEv s e) :
+    replay (committedS s) (step c s e).2.ntf = committedS (step c s e).1 ∧ FInv (step c s e).1 := by
+  cases e with
+  | newPeer p =>
+    simp only [step, newPeer]
+    split
+    · exact ⟨rfl, hf⟩
+    · obtain ⟨a, _, _, d, e, _⟩ := startSync_fields { s with cand := s.cand ++ [p] }
+      exact ⟨by simp only [committedS, a, d]; rfl, ⟨by rw [a, d]; exact hf.F, by rw [d, e]; exact hf.G⟩⟩
+  | donePeer p =>
+    simp only [step, donePeer]
+    split
+    · obtain ⟨a, _, _, d, e, _⟩ := startSync_fields { s with cand := s.cand.erase p, sync := none, hl := anchor s.log }
+      exact ⟨by simp only [committedS, a, d]; rfl, ⟨by rw [a, d]; exact hf.F, by rw [d, e]; exact hf.G⟩⟩
+    · exact ⟨rfl, ⟨hf.F, hf.G⟩⟩
+  | peerHeight p k => exact ⟨rfl, ⟨hf.F, hf.G⟩⟩
+  | inv p id =>
+    simp only [step, invMsg]
+    split
+    · split
+      · exact ⟨rfl, ⟨hf.F, hf.G⟩⟩
+      · exact ⟨rfl, hf⟩
+    · exact ⟨rfl, hf⟩
+  | headers p hs => exact C19_replay_headers c s p hs hf
+  | cfWrite stop n okk =>
+    cases okk with
+    | false => simp only [step, cfWrite]; exact ⟨rfl, hf⟩
+    | true =>
+      cases hi : idxOf s.log stop with
+      | none => simp only [step, cfWrite, hi]; exact ⟨rfl, hf⟩
+      | some endH =>
+        by_cases hc : (decide (n = 0) || decide (n - 1 > endH)) = true
+        · simp only [step, cfWrite, hi, hc]; exact ⟨rfl, hf⟩
+        · have hn : n ≠ 0 := by intro e; simp [e] at hc
+          have hle : n - 1 ≤ endH := by
+            rcases Nat.lt_or_ge endH (n - 1) with h | h
+            · exfalso; apply hc; simp; right; exact h
+            · exact h
+          exact C19_replay_cfwrite s stop n endH hf hi hn (ha endH hi hn hle)
+  | backlog k =>
+    have hn : (backlog s k).ntf = [] := by
+      simp only [backlog]
+      split
+      · rfl
+      · split
+        · rfl
+        · split
+          · rfl
+          · split <;> rfl
+    simp only [step, hn]; exact ⟨rfl, hf⟩
+
+/-- **Events after any moment, every event list**: replaying everything the block manager emits
+from a moment on, on the chain committed at that moment, gives the committed chain now. -/
+theorem C19_replay_events (c : Cfg) (s : State) (es : List Ev) (hf : FInv s) (ha : alignedRun c s es) :
+    replay (committedS s) (ntfsOf c s es) = committedS (run c s es) ∧ FInv (run c s es) := by
+  induction es generalizing s with
+  | nil => exact ⟨rfl, hf⟩
+  | cons e es ih =>
+    obtain ⟨a, b⟩ := step_trace c s e hf ha.1
+    obtain ⟨a2, b2⟩ := ih (step c s e).1 b ha.2
+    exact ⟨by simp only [ntfsOf, run]; rw [replay_append, a, a2], b2⟩
+
+/-- The full statement: for every history, every moment `m` (state `s`) and height `h > 0` at or
+below the filter tip, replaying `backlog_m(h)` and then everything emitted afterwards on the chain
+committed at `m` cut at `h` gives the chain committed now.  PROVED so far: the events part for
+every event list (`C19_replay_events`: it is this statement with the subscriber already holding
+the committed chain, i.e. after the backlog has been applied), every `headers` message on every
+path (`C19_replay_headers`), every aligned filter-header write (`C19_replay_cfwrite`) and the
+shape of the backlog (`C19_backlog_shape`).  MISSING: the two-line glue
+`replay (log.take (h+1)) (backlog s h).bl = committedS s` (needs `backlogRange` = the stored
+blocks `h+1..fst`, as `conn_replay` does for `connRange`).  Evaluated on the real system on
+every run by the subscriber replay in the driver. -/
 def C19_replay : Prop :=
-  ∀ (c : Cfg) (peers : List Peer) (es es' : List Ev) (h : Nat), 1 ≤ c.win → 0 < h →
-    let s := run c (init c peers) es
-    h ≤ s.fst →
-    let view0 := replay (s.log.take (h + 1)) ((backlog s h).bl.map (fun n => .conn n.id n.height 0))
-    ∀ outs : List Ntfn, True →   -- `outs` = the notifications of `es'` run from `s` (see driver)
-      (run c s es').fst ≤ tipHeight (run c s es').log
+  ∀ (c : Cfg) (s : State) (es' : List Ev) (h : Nat), FInv s → alignedRun c s es' → 0 < h → h ≤ s.fst →
+    replay (replay ((committedS s).take (h + 1)) ((backlog s h).bl.map (fun n => .conn n.id n.height 0)))
+      (ntfsOf c s es') = committedS (run c s es')
 
 /-! Non-vacuity -/
 example : (cfWrite { log := [0, 1, 2, 3] } 2 2 true).2.ntf = [.conn 1 1 2, .conn 2 2 2] := by decide
